@@ -206,4 +206,29 @@ Section Top.
       try discriminate. exists m', cs'. reflexivity.
   Qed.
 
+  (* C03 on disk: whatever sits at the path of a planned creation (the plan's
+     old entry there is "nothing") is still there afterwards *)
+  Theorem c03_target_kept_thm : forall plan fs0 stg c y,
+    rn <> "." -> tsorted fs0 -> plan_disjoint plan -> plan_paths_ok plan ->
+    In c plan -> cold c = None ->
+    get (rn :: cpath c) fs0 = Some y ->
+    get (rn :: cpath c) (tfs (final fs0 stg plan)) = Some y.
+  Proof.
+    intros plan fs0 stg c y Hrn Hs Hd Hpp Hin CO Hg.
+    unfold final, transition.
+    destruct (trans_loop norm E rn ch slm dfm ddm own fixed plan (init_state fs0 stg)) as [s' rs] eqn:TL.
+    cbn [fst].
+    assert (Forall (item_ok norm ch slm y (cpath c)) plan) as Hit.
+    { pose proof (plan_paths_path_ok _ Hpp) as Hp. rewrite Forall_forall in Hp.
+      apply Forall_forall. intros c' Hin'. split; [apply Hp; exact Hin'|]. split.
+      - destruct (is_prefix (cpath c') (cpath c)) eqn:H1; [left; exact H1|].
+        right. right. destruct (is_prefix (cpath c) (cpath c')) eqn:H2; [|reflexivity].
+        exfalso. pose proof (Hd c c' Hin Hin' H2) as <-. rewrite is_prefix_refl in H1. discriminate.
+      - intros e1 q' CO' Hq'. exfalso.
+        assert (is_prefix (cpath c') (cpath c) = true) as H1 by (rewrite Hq'; apply is_prefix_app).
+        pose proof (Hd c' c Hin' Hin H1) as ->. congruence. }
+    exact (trans_loop_keeps norm E rn ch slm dfm ddm own fixed Hrn (rn :: cpath c) y (cpath c)
+             eq_refl plan _ _ _ TL Hit Hs Hg).
+  Qed.
+
 End Top.
